@@ -20,7 +20,7 @@ def request(cls_name, m, args, ids=None):
     st = m.G
     k = args.get("k")
     t = e1.graph_tokens(st, ids) + [m.k if k is None else k]
-    t += e1.flow_tokens(st, ids, args["flow_attr"])
+    t += errlib.flow_tokens_py(st, ids, args["flow_attr"])
     ign, sc = e1err.internal_ignore_and_scale(args)
     ign = [e for e in ign if e[0] in ids and e[1] in ids]
     t += e1.edge_list_tokens(ign, ids)
@@ -129,9 +129,11 @@ def run_e1_cycles(ctx, cls_name, rand_instance, n, stream):
             args["optimization_options"] = dict(opts)
             a = {k: (dict(v) if isinstance(v, dict) else (list(v) if isinstance(v, list) else v)) for k, v in args.items()}
             cur["args"] = a
+            a = errlib.attach_numpy(ctx, cls_name, a, errlib.numpy_spec(ctx.rng(stream + "-np", i)))
+            args = a; cur["args"] = a
             lpdump.reset()
             try:
-                m = cls(**a)
+                m = cls(**errlib.clean_args(a))
             except (ValueError, OverflowError) as e:
                 ctx.dist("E1_cycles ctor " + type(e).__name__); return
             except Exception as e:
